@@ -47,9 +47,6 @@ theorem tcdBLAt_rotF (Om : Tri → Rat) (q : M3) (h : q.IsRot) (o : Fld) (i j : 
 
 /-! ## reversal -/
 
-/-- the invariants of the reversed triangle -/
-def flipT (tr : Tri) : Tri := ⟨tr.d12, tr.d23, tr.d31, -tr.t⟩
-
 theorem nbE_negF (o : Fld) (i j : Nat) : nbE (negF o) i j = (nbE o i j).map V3.neg := by
   unfold nbE
   rw [cellV_negF]
